@@ -46,6 +46,15 @@ func genTunnelPlan(r *rand.Rand) *ProxyPlan {
 		if i > 0 && r.IntN(6) == 0 {
 			rs.Host = "down.test" // nobody listens there: the proxy answers 502 itself, without reading the request's content
 		}
+		if rs.Size > 0 && rs.Host != "down.test" && r.IntN(6) == 0 {
+			// the transfer from the origin breaks: once, after the head or somewhere in the body
+			if r.IntN(2) == 0 {
+				rs.AbortAfterHead = true
+			} else if rs.Size > 1 {
+				rs.AbortAt = 1 + r.IntN(rs.Size-1)
+			}
+			rs.AbortN = 1
+		}
 		p.Res = append(p.Res, rs)
 	}
 	n := 2 + r.IntN(8)
@@ -85,8 +94,16 @@ func genTunnelPlan(r *rand.Rand) *ProxyPlan {
 			}
 		}
 	}
-	// pipelining: runs of body-less requests at the same instant go out in one write
-	for i := 0; i+1 < len(reqs); i++ {
+	// pipelining: runs of body-less requests at the same instant go out in one write (not in plans
+	// where a transfer breaks: the tunnel is rightly closed then, and what had been pipelined behind
+	// the broken exchange is lost on a shared tunnel but not on tunnels of its own)
+	breaks := false
+	for _, rs := range p.Res {
+		if rs.AbortAfterHead || rs.AbortAt > 0 {
+			breaks = true
+		}
+	}
+	for i := 0; i+1 < len(reqs) && !breaks; i++ {
 		a, b := reqs[i], reqs[i+1]
 		if a.Body == 0 && a.AtMs == b.AtMs && b.SameConn && len(a.Hdr) == 0 && (a.Method == "GET" || a.Method == "HEAD") && r.IntN(3) == 0 {
 			reqs[i].PipeNext = true
